@@ -69,7 +69,7 @@ def expected : List (String × String) := [
   ("Fortran2003.Forall_Triplet_Spec_List.match", "generated"),
   ("Fortran2003.Format_Item.match", "a4af5fdd219ce38f"),
   ("Fortran2003.Format_Item.tostr", "96d2809ac9a41de0"),
-  ("Fortran2003.Format_Item_List.match", "34fdd3afb278598d"),
+  ("Fortran2003.Format_Item_List.match", "d87748eb0270ac94"),
   ("Fortran2003.Format_Specification.match", "6c05e85d5602bfd5"),
   ("Fortran2003.Format_Stmt.match", "42ba1e43c3dd6de0"),
   ("Fortran2003.Goto_Stmt.match", "b0b12550296594e8"),
